@@ -24,14 +24,14 @@ TABLE = {
             "Trusted: numpy/ml_dtypes, onnx.numpy_helper, the 20-line reference packer; the grid is finite.", "DESIGN.md §3 C04"),
     "C05": ("exploration", "differential execution monitor: onnx.checker + ReferenceEvaluator/onnxruntime outputs before vs after pass sequences on generated executable models",
             "Generated checker-valid models are executed before and after random built-in pass sequences; outputs must agree position by position and the checker must still accept.",
-            "Trusted: onnx.checker, the two evaluators (a verdict needs one evaluator to run both models); a handful of input tensors per model.", "DESIGN.md §3 C05"),
+            "Trusted: onnx.checker, the two evaluators (a verdict needs one evaluator to run both models, and a lone evaluator is believed only if it reproduces its own outputs on independent re-encodings of the same models: onnx.inliner, outputs routed through Identity); a handful of input tensors per model.", "DESIGN.md §3 C05, A.10, A.12"),
     "C06": ("exploration", "before/after all-observables snapshot comparator around every raising public mutator in generated histories",
             "A snapshot of every public observable of every IR object is taken before each call of a generated history and compared when the call raised.",
             "Trusted: snapshot completeness (audited against dir() of the IR classes), generator type-correctness.", "DESIGN.md §3 C06, §2.3"),
     "C07": ("exploration", "save/load monitor over a parameter grid: byte equality, layout predicates on recorded ranges, tensor identity before/after",
             "Real saves over a threshold x alignment x shard x workers x backend x naming grid are reloaded; bytes, placement, layout and object identity are judged by independent predicates.",
             "Trusted: os.stat / file bytes, numpy; grid sampled.", "DESIGN.md §3 C07"),
-    "C08": ("fault_enumeration", "fork-per-crash-point process death via sys.monitoring LINE failpoints + counted failing file-system calls; directory/bytes oracle in the parent",
+    "C08": ("fault_enumeration", "fork-per-crash-point process death via sys.monitoring LINE failpoints + failing file-system effects (effect classes: temp creation, write(2) under a buffered file, mode copy, rename, cleanup; descriptor exhaustion); directory/bytes oracle in the parent",
             "For each scenario a recording run lists every line event and file-system call of the real save; the save is then re-run once per position with the process dying or the call failing there, and the destination is compared with the two legal contents.",
             "Trusted: os.fork/_exit semantics, page cache survives process death (power loss not modelled); exhaustive over the fault positions of the recorded runs only.", "DESIGN.md §3 C08"),
     "C09": ("exploration", "event-log monitors (mutual exclusion, exactly-once, conservation vs budget, thread census) over real threaded saves with injected delays/yields; structural deadlock diagnosis",
@@ -58,9 +58,9 @@ TABLE = {
     "C16": ("exploration", "twin evaluation: SymbolicDim operator overloads vs exact int/Fraction arithmetic; grammar strings vs Python eval of the same text",
             "Expression trees are built twice (real SymbolicDim and exact arithmetic) and compared under bindings, after simplify, after partial binding and after print->parse; grammar strings are compared with Python's own evaluation.",
             "Trusted: Python int/Fraction arithmetic and the Python parser for precedence; SymPy is part of the code under test.", "DESIGN.md §3 C16"),
-    "C17": ("exploration", "mutation fuzzing of protos under watchdog, invariant walker, canonical round-trip and file-access monitors (audit hook)",
+    "C17": ("exploration", "mutation fuzzing of protos under a logical-step budget (sys.monitoring event count per input byte) and watchdog, invariant walker, canonical round-trip and file-access monitors (audit hook)",
             "Field- and byte-level mutants of valid protos are deserialised by the real code under a watchdog; returned IR is walked for link consistency, re-serialised to a fixpoint and all file-system access is observed.",
-            "Trusted: the C01 walker, the C02 canonicaliser, sys.addaudithook.", "DESIGN.md §3 C17"),
+            "Trusted: the C01 walker, the C02 canonicaliser, sys.addaudithook; termination is decided on counted interpreter events (bound linear in the input size), never on wall-clock time.", "DESIGN.md §3 C17, A.11"),
     "C18": ("exploration", "brute-force closure oracle + differential execution of source vs extracted region over enumerated cuts",
             "Cuts of generated executable models are extracted by the real code; node set/order/initializers/independence are compared with a brute-force closure and the region is executed against recorded source values.",
             "Trusted: brute-force closure, evaluator; cuts enumerated for small graphs, sampled beyond.", "DESIGN.md §3 C18"),
@@ -69,7 +69,7 @@ TABLE = {
             "Trusted: the monitor's identity predicates; workload confined to what the statement lists.", "DESIGN.md §3 C19"),
     "C20": ("exploration", "differential run inside vs outside journals with sys.monitoring call log as ground truth and class-attribute census",
             "The same history is executed with and without (nested, exception-exited) journals; states, returns and exceptions are compared, entries are matched against a sys.monitoring call log and class attributes are censused before/after.",
-            "Trusted: sys.monitoring events on the original code objects, snapshot/iso oracles.", "DESIGN.md §3 C20"),
+            "Trusted: sys.monitoring events on the original code objects and the harness's own record of the calls it made (client boundary), snapshot/iso oracles.", "DESIGN.md §3 C20, A.9"),
 }
 
 
